@@ -1,0 +1,16 @@
+//go:build verif
+
+package tmmirror
+
+import (
+	"github.com/gordian-engine/gordian/gcrypto"
+	"github.com/gordian-engine/gordian/tm/tmconsensus"
+	"github.com/gordian-engine/gordian/tm/tmengine/internal/tmmirror/internal/tmi"
+)
+
+// VerifNewVoteDistribution re-exports tmi.VerifNewVoteDistribution.
+func VerifNewVoteDistribution(
+	proofs map[string]gcrypto.CommonMessageSignatureProof, vals []tmconsensus.Validator,
+) (available, present uint64, blockPower map[string]uint64) {
+	return tmi.VerifNewVoteDistribution(proofs, vals)
+}
